@@ -295,8 +295,8 @@ def plan(ctx):
         fams = [('chain', 1), ('chain', 2), ('chain', 3), ('swap', 1), ('swap', 2), ('mem', 1), ('mem', 3), ('counter', 1), ('counter', 2),
                 ('fsm', 1), ('fsm', 2), ('random', 1)]
         return fams, 4, 14, ['reverse', 'random']
-    fams = [(f, d) for f in ('chain', 'swap', 'mem', 'counter', 'fsm') for d in (1, 2, 3, 4)] + [('random', 1)]
-    return fams, 16, 24, ['reverse', 'random', 'rotate']
+    fams = [(f, d) for f in ('chain', 'swap', 'mem', 'counter', 'fsm') for d in (1, 2, 3, 4)] + [('random', 1), ('hier', 2), ('hier', 4)]
+    return fams, 24, 24, ['reverse', 'random', 'rotate']
 
 
 def report(ctx, res):
